@@ -106,14 +106,40 @@ Definition orem (c : N) (m : omap) : omap := filter (fun p => negb (N.eqb c (fst
 
 Record pos := mkPos { p_inst : N; p_side : side; p_qty : Z }.
 
+(** DefaultInstrumentMarketData: the L1 book (its own last_update_time, best bid and best ask as
+    (price, amount)) and the last traded price (time, price).  Times are nanoseconds, decimals
+    exact integers at scale 1e-8. *)
+Record l1book := mkL1 { l1_time : Z; l1_bid : option (Z * Z); l1_ask : option (Z * Z) }.
+Record mdata := mkMD { md_l1 : l1book; md_last : option (Z * Z) }.
+
+(** volume_weighted_mid_price of the L1 book: needs both sides; exact integer division (inputs whose
+    division is not exact, or whose amounts sum to 0 - the code panics -, are outside the input
+    requirements, see [l1_ok]) *)
+Definition l1_vwmid (b : l1book) : option Z :=
+  match l1_bid b, l1_ask b with
+  | Some (bp, ba), Some (ap, aa) => Some ((bp * aa + ap * ba) / (ba + aa))%Z
+  | _, _ => None
+  end.
+Definition l1_ok (b : l1book) : bool :=
+  match l1_bid b, l1_ask b with
+  | Some (bp, ba), Some (ap, aa) =>
+      Z.ltb 0 (ba + aa) && Z.eqb ((bp * aa + ap * ba) mod (ba + aa)) 0
+  | _, _ => true
+  end.
+
+(** DefaultInstrumentMarketData::price(): L1 volume-weighted mid-price, else last traded price *)
+Definition md_price (d : mdata) : option Z :=
+  match l1_vwmid (md_l1 d) with Some p => Some p | None => option_map snd (md_last d) end.
+
 (** One InstrumentState: exchange index, underlying (base, quote asset indices), orders,
-    current position, last traded price (time, price) = DefaultInstrumentMarketData with an empty
-    L1, so that price() is the last traded price. The instrument's key is its position. *)
+    current position, market data. The instrument's key is its position; its kind (spot /
+    perpetual / future / option, contract size, settlement asset) is not represented: nothing on
+    the modelled paths reads it. *)
 Record inst := mkInst {
   i_ex : N; i_base : N; i_quote : N;
-  i_orders : omap; i_pos : option pos; i_last : option (Z * Z) }.
+  i_orders : omap; i_pos : option pos; i_data : mdata }.
 
-Definition i_price (i : inst) : option Z := option_map snd (i_last i).
+Definition i_price (i : inst) : option Z := md_price (i_data i).
 
 Inductive link := LOpen (mb : list xreq) | LClosed | LUnhealthy | LMissing.
 
@@ -121,10 +147,10 @@ Inductive link := LOpen (mb : list xreq) | LClosed | LUnhealthy | LMissing.
 Record state := mkState { trading : bool; links : list link; insts : list inst }.
 
 Definition with_orders (i : inst) (m : omap) : inst :=
-  mkInst (i_ex i) (i_base i) (i_quote i) m (i_pos i) (i_last i).
+  mkInst (i_ex i) (i_base i) (i_quote i) m (i_pos i) (i_data i).
 Definition with_pos (i : inst) (p : option pos) : inst :=
-  mkInst (i_ex i) (i_base i) (i_quote i) (i_orders i) p (i_last i).
-Definition with_last (i : inst) (l : option (Z * Z)) : inst :=
+  mkInst (i_ex i) (i_base i) (i_quote i) (i_orders i) p (i_data i).
+Definition with_data (i : inst) (l : mdata) : inst :=
   mkInst (i_ex i) (i_base i) (i_quote i) (i_orders i) (i_pos i) l.
 
 Fixpoint upd_nth {A} (l : list A) (n : nat) (f : A -> A) : list A :=
@@ -375,33 +401,51 @@ Definition action (cs : state -> ifilter -> list creq * list oreq) (s : state) (
 (* ---------------------------------------------------------------------------------------- *)
 (** * Account and market updates (the part of the state the request path reads) *)
 
-(** an order snapshot is either Open{..} or inactive (Cancelled / FullyFilled / Expired /
-    OpenFailed are treated alike). Snapshots carrying in-flight markers are engine-internal and
-    not modelled. *)
-Inductive snap := SnOpen (m : meta) | SnInactive.
+(** the state an order snapshot reports: Open{..}, inactive (Cancelled / FullyFilled / Expired /
+    OpenFailed are treated alike), or an in-flight marker (OpenInFlight, CancelInFlight{order}) *)
+Inductive snap := SnOpen (m : meta) | SnInactive | SnOIF | SnCIF (u : option meta).
 
 Definition remaining (q : Z) (m : meta) : Z := (q - m_filled m)%Z.
 
 (** Orders::update_from_order_snapshot; [o] carries the snapshot's own fields *)
 Definition snapshot_orders (m : omap) (o : order) (sn : snap) : omap :=
   let c := k_cid (o_key o) in
-  match oget m c, sn with
-  | None, SnInactive => m
-  | None, SnOpen mt =>
-      if Z.eqb (remaining (o_qty o) mt) 0 then m else oins c (with_st o (OOpen mt)) m
-  | Some _, SnInactive => orem c m
-  | Some cur, SnOpen mt =>
-      let fresh :=
-        match o_st cur with
-        | OIF => true
-        | OOpen cm => Z.leb (m_time cm) (m_time mt)
-        | CIF None => true
-        | CIF (Some cm) => Z.leb (m_time cm) (m_time mt)
-        end in
-      if fresh then
-        if Z.eqb (remaining (o_qty o) mt) 0 then orem c m
-        else oins c (with_st cur (match o_st cur with CIF _ => CIF (Some mt) | _ => OOpen mt end)) m
-      else m
+  match oget m c with
+  | None =>
+      match sn with
+      | SnInactive => m
+      | SnOpen mt => if Z.eqb (remaining (o_qty o) mt) 0 then m else oins c (with_st o (OOpen mt)) m
+      | SnOIF => oins c (with_st o OIF) m
+      | SnCIF u => oins c (with_st o (CIF u)) m
+      end
+  | Some cur =>
+      match sn with
+      | SnInactive => orem c m
+      | SnOIF => m                                                    (* duplicate / stale marker *)
+      | SnOpen mt =>
+          let fresh :=
+            match o_st cur with
+            | OIF => true
+            | OOpen cm => Z.leb (m_time cm) (m_time mt)
+            | CIF None => true
+            | CIF (Some cm) => Z.leb (m_time cm) (m_time mt)
+            end in
+          if fresh then
+            if Z.eqb (remaining (o_qty o) mt) 0 then orem c m
+            else oins c (with_st cur (match o_st cur with CIF _ => CIF (Some mt) | _ => OOpen mt end)) m
+          else m
+      | SnCIF u =>
+          match o_st cur with
+          | OIF => oins c (with_st cur (CIF u)) m
+          | OOpen cm =>
+              let latest := match u with
+                            | Some um => if Z.leb (m_time cm) (m_time um) then um else cm
+                            | None => cm
+                            end in
+              oins c (with_st cur (CIF (Some latest))) m
+          | CIF _ => m
+          end
+      end
   end.
 
 (** Orders::update_from_cancel_response *)
@@ -438,6 +482,12 @@ Definition market_last (cur : option (Z * Z)) (t p : Z) : option (Z * Z) :=
   | None => Some (t, p)
   | Some (t0, _) => if Z.ltb t0 t then Some (t, p) else cur
   end.
+Definition data_trade (d : mdata) (t p : Z) : mdata := mkMD (md_l1 d) (market_last (md_last d) t p).
+
+(** ... for an OrderBookL1 event at exchange time [t]: the payload replaces the book iff the
+    book's own last_update_time is strictly older than [t] *)
+Definition data_l1 (d : mdata) (t : Z) (b : l1book) : mdata :=
+  if Z.ltb (l1_time (md_l1 d)) t then mkMD b (md_last d) else d.
 
 (* ---------------------------------------------------------------------------------------- *)
 (** * Engine events and Engine::process *)
@@ -447,10 +497,16 @@ Inductive event :=
 | EvCommand (c : command)
 | EvTradingState (enabled : bool)
 | EvOrderSnapshot (o : order) (sn : snap)     (* AccountEventKind::OrderSnapshot; o_st o is ignored *)
+| EvAccountSnapshot (l : list (order * snap)) (* AccountEventKind::Snapshot: the order snapshots of all its
+                                                 instrument groups, in order (each names its group's
+                                                 instrument: input requirement); balances are not modelled *)
 | EvCancelResponse (k : key) (ok : bool)       (* AccountEventKind::OrderCancelled *)
 | EvTrade (i : N) (sd : side) (q : Z)          (* AccountEventKind::Trade *)
 | EvAccountReconnecting
 | EvMarketTrade (i : N) (t p : Z)              (* MarketEvent DataKind::Trade *)
+| EvMarketL1 (i : N) (t : Z) (b : l1book)      (* MarketEvent DataKind::OrderBookL1 *)
+| EvOther                                      (* events without effect on the modelled state: balance
+                                                  snapshots; L2 book, candle, liquidation market events *)
 | EvMarketReconnecting.
 
 Inductive output :=
@@ -478,6 +534,10 @@ Definition update_state (s : state) (ev : event) : state * list output :=
   | EvOrderSnapshot o sn =>
       (set_insts s (updN (insts s) (k_inst (o_key o))
                       (fun x => with_orders x (snapshot_orders (i_orders x) o sn))), [])
+  | EvAccountSnapshot l =>
+      (set_insts s (fold_left (fun is_ p =>
+                      updN is_ (k_inst (o_key (fst p)))
+                        (fun x => with_orders x (snapshot_orders (i_orders x) (fst p) (snd p)))) l (insts s)), [])
   | EvCancelResponse k ok =>
       (set_insts s (updN (insts s) (k_inst k)
                       (fun x => with_orders x (cancel_response_orders (i_orders x) (k_cid k) ok))), [])
@@ -491,7 +551,10 @@ Definition update_state (s : state) (ev : event) : state * list output :=
       end
   | EvAccountReconnecting => (s, [OutAccountDisconnect])
   | EvMarketTrade i t p =>
-      (set_insts s (updN (insts s) i (fun x => with_last x (market_last (i_last x) t p))), [])
+      (set_insts s (updN (insts s) i (fun x => with_data x (data_trade (i_data x) t p))), [])
+  | EvMarketL1 i t b =>
+      (set_insts s (updN (insts s) i (fun x => with_data x (data_l1 (i_data x) t b))), [])
+  | EvOther => (s, [])
   | EvMarketReconnecting => (s, [OutMarketDisconnect])
   end.
 
